@@ -4,7 +4,7 @@
 (*   0-1 source port   2-3 0x5A5A   4 sequence   5-7 reserved   8 packet type            *)
 (*   9-15 reserved   16-17 timeslot (0x1111 | 0x2222)   18-19 slot type   20-21 colour   *)
 (*   code (one nibble repeated four times)   22-23 frame type   24-25 reserved           *)
-(*   26-59 payload: 17 little-endian 16-bit words = 33 burst octets + one pad octet      *)
+(*   26-59 payload: 17 little-endian 16-bit words = 33 burst octets + one more octet     *)
 (*   60-61 reserved   62 call type   63-66 destination id   67-70 source id (32 bit      *)
 (*   little endian, 24-bit id in the upper three octets)   71 reserved                   *)
 EXTENDS Integers, Sequences
@@ -23,7 +23,7 @@ WellFormed(f) ==
   /\ Len(f) = 72 /\ O(f, 2) = 90 /\ O(f, 3) = 90
   /\ O(f, 20) = O(f, 21) /\ O(f, 20) \div 16 = O(f, 20) % 16           \* colour nibble x 4
   /\ O(f, 63) = 0 /\ O(f, 67) = 0                                       \* low octet of the id fields
-  /\ O(f, 58) = 0                                                       \* pad octet of the payload
+\* (octet 58, the 34th payload octet, is arbitrary: "arbitrary 34-byte payloads" - the documented wake-up frames carry 0x50 / 0xEF)
   /\ O(f, 16) = O(f, 17) /\ O(f, 16) \in {17, 34}
 
 \* slot type / call type -> burst class
